@@ -306,11 +306,11 @@ func (w *worker[T, JobType]) dispatchNextJob(mayDispatch func() bool) error {
 		return ErrFailedToCastJob
 	}
 
-	if j.IsClosed() {
+	// a closed (cancelled) job is skipped; otherwise it is Processing from here on and can't be closed
+	if !j.startProcessing() {
 		return nil
 	}
 
-	j.changeStatus(processing)
 	j.setAckId(ackId)
 
 	// then job will be process by the processSingleJob function inside spawnWorker
